@@ -8,7 +8,22 @@ import storeprop  # noqa: E402
 ID = "C04"
 THEOREMS = ["c04_delete_is_delete_all", "c04_no_dangling", "c04_victims_unreachable", "c04_attrs_kept",
             "c04_links_kept_in_order", "c04_untouched_node", "c04_reach_kept", "c04_nothing_new"]
-PROFILE = {"weights": {"create": 10, "mtag": 3, "feature": 3, "append": 9, "set_link": 6, "delete": 6, "remove": 4,
+# scripted beginnings that build the link topologies deletion has to cope with: several sources of
+# ONE subtree linked from the same entity; an array referenced from groups and tags of its block
+PRELUDES = [
+    [["create", 0, "CBlocks", "B", "t", []], ["create", 1, "CSources", "s", "t", []], ["create", 2, "CSources", "c", "t", []],
+     ["create", 2, "CSources", "d", "t", []], ["create", 1, "CDataArrays", "a", "t", [1, 2]], ["create", 1, "CTags", "t", "t", [1]],
+     ["append", 5, "LSources", 3], ["append", 5, "LSources", 4], ["append", 5, "LSources", 2], ["append", 6, "LSources", 3],
+     ["append", 6, "LSources", 2]],
+    [["create", 0, "CBlocks", "B", "t", []], ["create", 1, "CDataArrays", "a", "t", [1]], ["create", 1, "CDataArrays", "b", "t", [2]],
+     ["create", 1, "CGroups", "g", "t", []], ["create", 1, "CGroups", "h", "t", []], ["create", 1, "CTags", "t", "t", [1]],
+     ["append", 4, "LDataArrays", 2], ["append", 4, "LDataArrays", 3], ["append", 5, "LDataArrays", 2], ["append", 6, "LReferences", 2],
+     ["append", 6, "LReferences", 3], ["create_feature", 6, 2, "tagged"], ["create_mtag", 1, "m", "t", 3]],
+    [["create", 0, "CSections", "s", "t", []], ["create", 1, "CSections", "c", "t", []], ["create", 2, "CSections", "cc", "t", []],
+     ["create", 0, "CBlocks", "B", "t", []], ["create", 4, "CDataArrays", "a", "t", [1]], ["create", 4, "CGroups", "g", "t", []],
+     ["set_link", 4, "RMetadata", 2], ["set_link", 5, "RMetadata", 3], ["set_link", 6, "RMetadata", 1]],
+]
+PROFILE = {"preludes": PRELUDES, "prelude_prob": 0.6, "weights": {"create": 10, "mtag": 3, "feature": 3, "append": 9, "set_link": 6, "delete": 8, "remove": 4,
                        "lookup": 1, "probe": 0.5, "reopen": 0.5, "bad": 0.3, "set_attr": 1}}
 RULE = ("link-rich topologies: several blocks, arrays linked from many groups / tag and multi-tag references / positions / "
         "extents / features, nested sources and sections with repeated names, metadata links and source lists from every kind; "
